@@ -9,7 +9,10 @@ def parseCb : String → CbSpec
 def parseWs (m sw : String) : WSpec :=
   { mode := match m with | "r" => .retNow | "x" => .raiseNow (.user 2) | _ => .gated, swallow := sw == "1" }
 
-def parseGroup (s : String) : Option String := if s == "-" then none else some s
+/-- op lines are blank-separated: the empty string (a legal group name) travels as `''` -/
+def decName (s : String) : String := if s == "''" then "" else s
+
+def parseGroup (s : String) : Option String := if s == "-" then none else some (decName s)
 
 def parseItems (s : String) : List Item :=
   if s == "-" then [] else s.toList.map fun c => { bad := c == '1', raises := c == '2' }
@@ -55,12 +58,12 @@ def parseOp (toks : List String) : Option Op :=
   | ["stop", n] => some (.stop (n.toInt?.getD 0))
   | ["stop_all"] => some .stopAll
   | "cancel" :: ids => some (.cancel (parseInts ids))
-  | ["cancel_group", g] => some (.cancelGroup g)
+  | ["cancel_group", g] => some (.cancelGroup (decName g))
   | ["cancel_all"] => some .cancelAll
   | ["lock"] => some .lock
   | ["unlock"] => some .unlock
   | ["set_size", n] => some (.setSize (n.toInt?.getD 0))
-  | "get_ids" :: names => some (.getIds names)
+  | "get_ids" :: names => some (.getIds (names.map decName))
   | ["flush", re] => some (.flush (re == "1"))
   | ["gac", re] => some (.gac (re == "1"))
   | ["until_closed"] => some .untilClosed
